@@ -6,6 +6,7 @@
 package model
 
 import (
+	"fmt"
 	"regexp"
 	"strings"
 	"sync"
@@ -51,6 +52,7 @@ var defaultSpec = VarSpec{`[^/]+`, false, false, `[a-c1. _é%-]{1,3}`}
 type Var struct {
 	Name string
 	Re   string // custom regex, "" = default or global
+	Fmt  string // how "name:regex" is spelt between the braces when not compact, e.g. " %s : %s " (rux ignores white space around the name and around the regex of a {name:regex} variable)
 }
 
 // Spec returns the menu entry of the variable.
@@ -74,6 +76,9 @@ func (v *Var) Spec() VarSpec {
 func (v *Var) Regex() string { return v.Spec().Re }
 
 func (v *Var) String() string {
+	if v.Fmt != "" && v.Re != "" {
+		return "{" + fmt.Sprintf(v.Fmt, v.Name, v.Re) + "}"
+	}
 	if v.Re != "" {
 		return "{" + v.Name + ":" + v.Re + "}"
 	}
@@ -434,6 +439,10 @@ func genVar(t *rapid.T, used map[string]bool) *Var {
 	v := &Var{Name: n}
 	if rapid.IntRange(0, 2).Draw(t, "custom") == 0 {
 		v.Re = rapid.SampledFrom(CustomRes).Draw(t, "re").Re
+		// white space around the name and the regex is not significant: "{ id : \d+ }" is "{id:\d+}"
+		if rapid.IntRange(0, 7).Draw(t, "spacedVar") == 0 {
+			v.Fmt = rapid.SampledFrom([]string{" %s : %s ", "%s :%s", "%s: %s", " %s:%s", "%s:%s "}).Draw(t, "spacing")
+		}
 	}
 	return v
 }
